@@ -8,13 +8,13 @@ from harness import common, codecio, gens, schemaio, impl, oracles
 from harness.common import Stream, hexb
 
 PID = "C11"
-LEAN_MODULES = ["Astm.Proofs.C11", "Astm.State.C11"]
+LEAN_MODULES = ["Astm.Proofs.C11", "Astm.State.C11", "Astm.Surface.C11"]
 THEOREMS = [
     "Astm.C11.astm_is_frames_joined_by_newlines", "Astm.C11.lis2a_is_concatenated_contents",
     "Astm.C11.json_metadata_carries_both_renderings", "Astm.C11.json_buckets_are_filter_map",
     "Astm.C11.unknown_types_are_skipped", "Astm.C11.json_all_or_nothing", "Astm.C11.format_dispatch",
     "Astm.C11.default_format_is_json", "Astm.C11.example_buckets",
-    "Astm.C11.anchored_code_keeps_no_other_state",
+    "Astm.C11.anchored_code_keeps_no_other_state", "Astm.C11.anchored_code_keeps_its_signatures",
 ]
 RULE = ("(1) the instrument dumps shipped with the repository; (2) messages generated from every record schema (generic "
         "and per instrument): the instrument's real header frame followed by any number and order of conformant records "
